@@ -36,9 +36,29 @@ const (
 	c16SysTimeout = 5 * time.Second
 )
 
-// c16SysCert makes a self-signed certificate for the server name and its
-// immediate subdomains.
-func c16SysCert() (certPEM, keyPEM string, err error) {
+// c16SysNarrowSANs is a certificate for the server name and its immediate
+// subdomains; c16SysWideSANs covers more than the configured domain (wildcard
+// of the parent, the parent itself, an unrelated name), as multi-domain
+// certificates do.
+var (
+	c16SysNarrowSANs = []string{c16SysName, "*." + c16SysName}
+	c16SysWideSANs   = []string{"*.verif.test", "verif.test", c16SysName, "*." + c16SysName, "other.example"}
+)
+
+// c16SysCovers tells whether the handshake filter of the strict check, which
+// goes by the certificate's names (wildcards by suffix), lets name through.
+func c16SysCovers(sans []string, name string) bool {
+	for _, san := range sans {
+		if san == name || (strings.HasPrefix(san, "*.") && strings.HasSuffix(name, san[1:])) {
+			return true
+		}
+	}
+
+	return false
+}
+
+// c16SysCert makes a self-signed certificate for the names.
+func c16SysCert(names []string) (certPEM, keyPEM string, err error) {
 	key, err := ecdsa.GenerateKey(elliptic.P256(), crand.Reader)
 	if err != nil {
 		return "", "", err
@@ -52,7 +72,7 @@ func c16SysCert() (certPEM, keyPEM string, err error) {
 		ExtKeyUsage:           []x509.ExtKeyUsage{x509.ExtKeyUsageServerAuth},
 		BasicConstraintsValid: true,
 		IsCA:                  true,
-		DNSNames:              []string{c16SysName, "*." + c16SysName},
+		DNSNames:              names,
 	}
 	der, err := x509.CreateCertificate(crand.Reader, tmpl, tmpl, &key.PublicKey, key)
 	if err != nil {
@@ -246,6 +266,9 @@ type c16SysRun struct {
 	stageNo int
 	history []string
 	ids     []string
+	// sans are the names of the certificate; certKind is "narrow" or "wide".
+	sans     []string
+	certKind string
 	// broken holds the kinds of violation already reported for this
 	// configuration: once the running program has lost a setting, the later
 	// stages only show the same loss again, so it is reported at the stage
@@ -290,6 +313,9 @@ func (r *c16SysRun) names() (out [][2]string) {
 		{a + ".DNS.VERIF.TEST", "label-case-differs"},
 		{"-" + a + "." + conf, "invalid-label-hyphen"},
 		{"b_d." + conf, "invalid-label-underscore"},
+		{"sibling.verif.test", "sibling-under-parent"},
+		{a + ".verif.test", "label-under-parent"},
+		{"x.sibling.verif.test", "below-sibling-under-parent"},
 	}
 	if verifkit.Thorough() {
 		for i := 2; i < len(r.ids); i++ {
@@ -323,7 +349,10 @@ func (r *c16SysRun) sweep(stage string) (ok bool) {
 	rep := r.rep
 	r.stageNo++
 	mode := map[bool]string{true: "strict", false: "nonstrict"}[r.strict]
-	tag := fmt.Sprintf("c16s%s%d", mode[:1], r.stageNo)
+	tag := fmt.Sprintf("c16s%s%s%d", mode[:1], r.certKind[:1], r.stageNo)
+	if r.certKind == "wide" {
+		mode += "+wide-certificate"
+	}
 	if !r.waitServing() {
 		rep.Inconcl(fmt.Sprintf("DoT listener does not answer for the configured name after %q (strict=%v): %s", stage, r.strict,
 			sysTail(r.in.Log(), 400)))
@@ -365,12 +394,15 @@ func (r *c16SysRun) sweep(stage string) (ok bool) {
 			p.Proto, _ = es[0]["client_proto"].(string)
 		}
 		nontrivial := p.Name != c16SysName
-		rep.Eval(nontrivial, fmt.Sprintf("%v|%s|%s|%s", r.strict, stage, p.Name, p.QName))
+		rep.Eval(nontrivial, fmt.Sprintf("%v|%s|%s|%s|%s", r.strict, r.certKind, stage, p.Name, p.QName))
 		rep.Class("system:" + mode + ":" + p.Exp.Class)
 		rep.Class("system:stage:" + stage)
 		switch {
 		case p.Exp.MustFail:
 			rep.Event("oracle_demands_rejection:" + p.Exp.Class)
+			if p.Exp.Class == "outside" && c16SysCovers(r.sans, p.Name) {
+				rep.Event("oracle_demands_rejection:outside-but-covered-by-certificate")
+			}
 		case !p.Exp.MayFail && p.Exp.IDs[0] != "":
 			rep.Event("oracle_demands_exact_clientid")
 		case !p.Exp.MayFail:
@@ -397,7 +429,14 @@ func (r *c16SysRun) sweep(stage string) (ok bool) {
 		switch {
 		case p.Exp.MustFail && p.Served:
 			if p.Exp.Class == "outside" {
-				r.violate("system:outside-name-served-under-strict-check", stage,
+				kind := "system:outside-name-served-under-strict-check"
+				if c16SysCovers(r.sans, p.Name) {
+					// The handshake filter lets the name through; only the
+					// per-request check against the configured name is left.
+					kind += ":certificate-covers-it"
+				}
+				wit["certificate_names"] = r.sans
+				r.violate(kind, stage,
 					fmt.Sprintf("strict_sni_check is configured, yet a DoT query with server name %q (outside %s) was served (ClientID %q)",
 						p.Name, c16SysName, p.ClientID), wit)
 			} else {
@@ -476,8 +515,17 @@ func (r *c16SysRun) step(name, path string, body map[string]any) (accepted bool)
 	return true
 }
 
-func c16SysConfig(rep *verifkit.Report, rng *rand.Rand, up *sysUpstream, strict bool, certPEM, keyPEM string) {
-	r := &c16SysRun{rep: rep, rng: rng, strict: strict}
+func c16SysConfig(rep *verifkit.Report, rng *rand.Rand, up *sysUpstream, strict bool, certKind string) {
+	r := &c16SysRun{rep: rep, rng: rng, strict: strict, certKind: certKind, sans: c16SysNarrowSANs}
+	if certKind == "wide" {
+		r.sans = c16SysWideSANs
+	}
+	certPEM, keyPEM, cerr := c16SysCert(r.sans)
+	if cerr != nil {
+		rep.Inconcl("certificate: " + cerr.Error())
+
+		return
+	}
 	nIDs := verifkit.Pick(2, 6)
 	for i := 0; i < nIDs; i++ {
 		n := 1 + rng.Intn(12)
@@ -519,8 +567,8 @@ func c16SysConfig(rep *verifkit.Report, rng *rand.Rand, up *sysUpstream, strict 
 		r.in.Kill()
 		_ = os.RemoveAll(r.in.Dir)
 	}()
-	r.history = append(r.history, fmt.Sprintf("start with tls.enabled, server_name %s, strict_sni_check: %v", c16SysName, strict))
-	rep.Class(fmt.Sprintf("configurations_strict_%v", strict))
+	r.history = append(r.history, fmt.Sprintf("start with tls.enabled, server_name %s, strict_sni_check: %v, certificate for %v", c16SysName, strict, r.sans))
+	rep.Class(fmt.Sprintf("configurations_strict_%v_certificate_%s", strict, certKind))
 
 	if !r.sweep("initial") {
 		return
@@ -598,26 +646,25 @@ func TestVerifC16Sys(t *testing.T) {
 		return
 	}
 	defer up.Stop()
-	certPEM, keyPEM, err := c16SysCert()
-	if err != nil {
-		rep.Inconcl("certificate: " + err.Error())
-
-		return
-	}
 	for _, strict := range []bool{true, false} {
-		c16SysConfig(rep, rng, up, strict, certPEM, keyPEM)
+		c16SysConfig(rep, rng, up, strict, "narrow")
 	}
+	// A certificate that covers more than the configured domain: the
+	// handshake filter of the strict check goes by the certificate, so names
+	// it covers reach the per-request check.
+	c16SysConfig(rep, rng, up, true, "wide")
 
 	need := map[string]int{
-		"sweeps":                                                10,
-		"oracle_demands_rejection:outside":                      40,
-		"oracle_demands_rejection:invalid-label":                10,
-		"oracle_demands_exact_clientid":                         20,
-		"oracle_demands_service_without_clientid":               10,
-		"queries_served":                                        40,
-		"queries_rejected":                                      40,
+		"sweeps":                           10,
+		"oracle_demands_rejection:outside": 40,
+		"oracle_demands_rejection:outside-but-covered-by-certificate": 20,
+		"oracle_demands_rejection:invalid-label":                      10,
+		"oracle_demands_exact_clientid":                               20,
+		"oracle_demands_service_without_clientid":                     10,
+		"queries_served":   40,
+		"queries_rejected": 40,
 		"admin_steps_accepted:same settings, private_key_saved": 2,
-		"clean_restarts":                                        2,
+		"clean_restarts": 2,
 	}
 	for k, n := range need {
 		if rep.EventCount(k) < n {
